@@ -74,11 +74,11 @@ def lean_tables(lvl):
 
 def c_tables(exe):
     lines = ["tab.p", "tab.o0", "tab.std", "tab.nalt"]
-    rc, outs, err = vlib.run_c([exe], lines)
+    rc, outs, err, _to = run_lines([exe], lines, 60, "R ")
     if rc != 0 or len(outs) != 4:
         raise vlib.BuildError("drv_ideal tab.* failed: " + err)
     nalt = int(outs[3], 16)
-    rc, alts, err = vlib.run_c([exe], ["tab.alt %x" % k for k in range(nalt)])
+    rc, alts, err, _to = run_lines([exe], ["tab.alt %x" % k for k in range(nalt)], 60, "R ")
     pv = ints(outs[0])
 
     def ext(s):
@@ -726,9 +726,12 @@ def cert_lines(p, cases, couts):
                 I, nI = c.meta["I"]
                 Oraw = c.meta["Oraw"]
                 out.append(("id.certrord %s %s %s %s" % (P, raw_ideal_line((I, nI)), hxs(lat_flat(Oraw)), co), "1", c))
+                # complete certificate (proved: accepted => T is exactly the right order)
+                out.append(("id.certtransx %s %s %s %s %s" % (P, raw_ideal_line((I, nI)), raw_ideal_line((I, nI)), hxs(lat_flat(Oraw)), co), "1", c))
             elif c.kind == "rtrans":
                 (I, nI), (J, nJ) = c.meta["I1"], c.meta["I2"]
                 out.append(("id.certtransid %s %s %s %s %s" % (P, raw_ideal_line((I, nI)), raw_ideal_line((J, nJ)), hxs(lat_flat(c.meta["Oraw"])), co), "1 1", c))
+                out.append(("id.certtransx %s %s %s %s %s" % (P, raw_ideal_line((I, nI)), raw_ideal_line((J, nJ)), hxs(lat_flat(c.meta["Oraw"])), co), "1", c))
             elif c.kind == "isom" and co.startswith("1 "):
                 (I, nI), (J, nJ) = c.meta["I1"], c.meta["I2"]
                 out.append(("id.certisom %s %s %s %s" % (P, hxs(lat_flat(I)), hxs(lat_flat(J)), co[2:]), "1", c))
@@ -755,20 +758,98 @@ def cert_lines(p, cases, couts):
 
 
 # ------------------------------------------------------------------------------------------------ bounded process runs
-def run_lines(cmd, lines, timeout, tag=""):
-    """feed op lines to a driver; on timeout the process is killed and the lines answered so far are returned
-    (a changed search loop in ideal.c can turn one op into ~10^9 iterations: that op is then reported, not waited for)"""
-    import subprocess
+# Process hygiene: every child (C driver, Lean driver) runs in its own session / process group with a time-out, gets
+# SIGKILL when this Python process dies for whatever reason (PR_SET_PDEATHSIG), and every group still alive is killed
+# on time-out, on an exception in any worker, at interpreter exit and on SIGTERM/SIGINT.  A run leaves nothing behind.
+import atexit, ctypes, signal, subprocess, threading
+_LIVE = {}                  # pid -> Popen
+_GROUPS = {}                # id(event) -> [Popen] of one level
+_LIVE_LOCK = threading.Lock()
+_ABORT = threading.Event()  # set when one side of a level timed out / failed: its partner is killed as well
+
+
+def _child_setup():
+    os.setsid()
+    try:
+        ctypes.CDLL("libc.so.6", use_errno=True).prctl(1, signal.SIGKILL)      # PR_SET_PDEATHSIG
+    except Exception:       # noqa
+        pass
+
+
+def _kill_group(pr):
+    try:
+        os.killpg(pr.pid, signal.SIGKILL)
+    except (ProcessLookupError, PermissionError, OSError):
+        pass
+    try:
+        pr.kill()
+    except Exception:       # noqa
+        pass
+
+
+def kill_all_children():
+    with _LIVE_LOCK:
+        prs = list(_LIVE.values())
+    for pr in prs:
+        _kill_group(pr)
+
+
+atexit.register(kill_all_children)
+
+
+def _on_signal(signum, frame):
+    kill_all_children()
+    raise SystemExit(128 + signum)
+
+
+try:
+    if threading.current_thread() is threading.main_thread():
+        signal.signal(signal.SIGTERM, _on_signal)
+except Exception:           # noqa
+    pass
+
+
+def run_lines(cmd, lines, timeout, tag="", group=None):
+    """feed op lines to a driver; on time-out the whole process group is killed and the lines answered so far are
+    returned (a changed search loop in ideal.c can turn one op into ~10^9 iterations: that op is then reported, not
+    waited for).  `group`: a threading.Event shared by the processes of one level — when one of them times out the
+    others are killed too (the Lean driver would otherwise keep walking the same search)."""
     env = dict(os.environ)
     env.setdefault("ASAN_OPTIONS", "detect_leaks=0:abort_on_error=0")
-    pr = subprocess.Popen(cmd, stdin=subprocess.PIPE, stdout=subprocess.PIPE, stderr=subprocess.PIPE, env=env)
+    pr = subprocess.Popen(cmd, stdin=subprocess.PIPE, stdout=subprocess.PIPE, stderr=subprocess.PIPE, env=env,
+                          preexec_fn=_child_setup)
+    with _LIVE_LOCK:
+        _LIVE[pr.pid] = pr
+    if group is not None:
+        with _LIVE_LOCK:
+            _GROUPS.setdefault(id(group), []).append(pr)
     timed_out = False
+    so = se = b""
     try:
-        so, se = pr.communicate(("\n".join(lines) + "\n").encode(), timeout=timeout)
-    except subprocess.TimeoutExpired:
-        pr.kill()
-        so, se = pr.communicate()
-        timed_out = True
+        # one communicate call only: retrying communicate() after a TimeoutExpired loses the unsent input on CPython <= 3.11
+        try:
+            so, se = pr.communicate(("\n".join(lines) + "\n").encode(), timeout=timeout)
+            if pr.returncode is not None and pr.returncode < 0 and ((group is not None and group.is_set()) or _ABORT.is_set()):
+                timed_out = True            # killed because the partner process of this level timed out
+        except subprocess.TimeoutExpired:
+            timed_out = True
+            _kill_group(pr)
+            if group is not None:           # stop the partner(s) walking the same search
+                group.set()
+                with _LIVE_LOCK:
+                    partners = [q for q in _GROUPS.get(id(group), []) if q is not pr]
+                for q in partners:
+                    _kill_group(q)
+            so, se = pr.communicate()
+    finally:
+        if pr.poll() is None:
+            _kill_group(pr)
+        try:
+            pr.wait(timeout=5)
+        except Exception:   # noqa
+            pass
+        with _LIVE_LOCK:
+            _LIVE.pop(pr.pid, None)
     txt = so.decode("utf-8", "replace").split("\n")
     if txt and txt[-1] == "":
         txt = txt[:-1]
@@ -776,6 +857,10 @@ def run_lines(cmd, lines, timeout, tag=""):
         txt = txt[:-1]              # drop a partially written last line
     outs = [l[len(tag):] for l in txt if l.startswith(tag)] if tag else txt
     return pr.returncode, outs, se.decode("utf-8", "replace")[-3000:], timed_out
+
+
+def lean_driver_exe():
+    return os.path.join(vlib.LEAN, ".lake", "build", "bin", "driver")
 
 
 # ------------------------------------------------------------------------------------------------ per level driver
@@ -805,8 +890,9 @@ def run_level(ctx, lvl, exe, quick, cov):
     tmo = 150 if quick else 1200
     lean_exe = os.path.join(vlib.LEAN, ".lake", "build", "bin", "driver")
     with ThreadPoolExecutor(2) as ex:
-        fc = ex.submit(run_lines, [exe], lines, tmo, "R ")
-        fm = ex.submit(run_lines, [lean_exe], [lines[i] for i in midx], tmo)
+        grp = threading.Event()
+        fc = ex.submit(run_lines, [exe], lines, tmo, "R ", grp)
+        fm = ex.submit(run_lines, [lean_exe], [lines[i] for i in midx], tmo, "", grp)
         rc, couts, cerr, c_to = fc.result()
         _mrc, mo_, _merr, m_to = fm.result()
     res["timeouts"] = dict(c=c_to, model=m_to)
@@ -850,7 +936,8 @@ def run_level(ctx, lvl, exe, quick, cov):
     # phase 2: certificates
     cl = cert_lines(p, cases, couts[:len(cases)])
     if cl:
-        outs = ctx.driver([l for l, _, _ in cl])
+        _rc2, outs, _e2, cert_to = run_lines([lean_driver_exe()], [l for l, _, _ in cl], tmo)
+        outs += ["<no output: model driver %s>" % ("timed out" if cert_to else "stopped")] * (len(cl) - len(outs))
         res["cert_ops"] = len(cl)
         for (l, exp, c), o in zip(cl, outs):
             if o != exp:
@@ -919,10 +1006,18 @@ def run(ctx):
             return dict(level="proof", rule="proof stage failed; correspondence not run")
     cov = {}
     results = {}
-    with ThreadPoolExecutor(3) as ex:
-        futs = {l: ex.submit(run_level, ctx, l, exes[l], ctx.quick, cov.setdefault("L%d" % l, {})) for l in (1, 3, 5)}
-        for l, f in futs.items():
-            results[l] = f.result()
+    try:
+        with ThreadPoolExecutor(3) as ex:
+            futs = {l: ex.submit(run_level, ctx, l, exes[l], ctx.quick, cov.setdefault("L%d" % l, {})) for l in (1, 3, 5)}
+            try:
+                for l, f in futs.items():
+                    results[l] = f.result()
+            except BaseException:
+                _ABORT.set()            # one level failed: stop the drivers of the others before re-raising
+                kill_all_children()
+                raise
+    finally:
+        kill_all_children()
     tot_ops = tot_dis = tot_cert = tot_cf = 0
     allv = []
     for lvl in (1, 3, 5):
@@ -977,7 +1072,7 @@ def replay(ctx, rp):
         return 0
     ctx.build_repo("ref")
     exe = ctx.cc_harness(SRC, os.path.join(ctx.tmp, "drv_ideal_l%d" % r["level"]), r["level"])
-    rc, outs, err = vlib.run_c([exe], [r["op"]])
+    rc, outs, err, _to = run_lines([exe], [r["op"]], 300, "R ")
     print("op        :", r["op"][:300], "...")
     print("recorded C:", str(r.get("c_output"))[:300])
     print("current  C:", (outs[0] if outs else "<none rc=%d>" % rc)[:300])
